@@ -424,6 +424,8 @@ struct Prepared {
     base: Kv,
     base_seqn: u32,
     writes: Vec<(Key, Option<Vec<u8>>)>,
+    /// prepared on a chain of overlays: the most recent one
+    on_parent: Option<usize>,
 }
 
 pub struct HistX {
@@ -1042,20 +1044,44 @@ impl Exec {
             "prep" => {
                 let id = arg["id"].as_u64().unwrap() as usize;
                 let batch = decode_batch(&arg["b"], &self.uni, tag);
+                // optionally on a chain of uncommitted overlays (most recent first): the finished
+                // session is later committed directly, which is legitimate exactly when the chain
+                // has been committed in the meantime and nothing else has happened since
+                let on: Vec<usize> = arg.get("on").and_then(|o| o.as_array()).map(|a| a.iter().map(|x| x.as_u64().unwrap() as usize).collect()).unwrap_or_default();
+                if on.iter().any(|i| self.overlays.get(i).map_or(true, |e| e.0.is_none())) {
+                    return Ok(());
+                }
+                if !on.is_empty() && !matches!(self.chain_valid(&on), Ok(true)) {
+                    return Ok(());
+                }
+                let view = if on.is_empty() { self.model.kv.clone() } else { self.chain_view(&on) };
                 let n = self.n.as_ref().unwrap();
-                let session = n.begin_session(SessionParams::default());
-                let actuals = driver::Db::<B3>::actuals(&session, &batch, &self.model.kv)
+                let params = if on.is_empty() {
+                    SessionParams::default()
+                } else {
+                    let ovs: Vec<&Overlay> = on.iter().map(|i| self.overlays[i].0.as_ref().expect("overlay handle gone")).collect();
+                    match SessionParams::default().overlay(ovs) {
+                        Ok(p) => p,
+                        Err(e) => return Err(viol("good-chain-refused", format!("op {idx}: SessionParams::overlay refused valid chain {on:?}: {e:?}"))),
+                    }
+                };
+                let session = n.begin_session(params);
+                let actuals = driver::Db::<B3>::actuals(&session, &batch, &view)
                     .map_err(|m| viol("session-read", m))?;
                 let fin = session
                     .finish(actuals)
                     .map_err(|e| viol("finish-err", format!("finish failed: {e:#}")))?;
+                if !on.is_empty() {
+                    self.out.goals.push("changeset-prepared-on-overlay-chain");
+                }
                 self.prepared.insert(
                     id,
                     Prepared {
                         fin: Some(fin),
-                        base: self.model.kv.clone(),
+                        base: view,
                         base_seqn: self.model.seqn,
                         writes: writes_of(&batch),
+                        on_parent: on.first().cloned(),
                     },
                 );
                 self.out.transitions += 1;
@@ -1065,7 +1091,11 @@ impl Exec {
                 let Some(p) = self.prepared.get_mut(&id) else { return Ok(()) };
                 let Some(fin) = p.fin.take() else { return Ok(()) };
                 let base_ok = p.base == self.model.kv;
-                let history_intact = p.base_seqn == self.model.seqn;
+                let history_intact = match p.on_parent {
+                    None => p.base_seqn == self.model.seqn,
+                    // on a chain: the chain's most recent overlay was the last thing committed
+                    Some(parent) => self.last_commit_overlay == Some(parent),
+                };
                 let writes = p.writes.clone();
                 let n = self.n.as_ref().unwrap();
                 let res = if name == "fc" {
